@@ -69,7 +69,7 @@ for _nt, _C in R.PIN_NODE.items():
 REQUIRED = (['pin-diff-evaluated', 'pin-cells-compared', 'validate-calls', 'agree:accept', 'agree:reject', 'site-recorded-checked',
              'guardrail:ctor:refused-as-pinned', 'guardrail:ctor:allowed-as-pinned', 'guardrail:connect:allowed-as-pinned',
              'guardrail:connect:pinned-refusal-attempted',
-             'cases:S', 'cases:N', 'cases:G', 'cases:P', 'cases:U', 'cases:V', 'cases:R', 'variant:num-instances:reject',
+             'cases:S', 'cases:N', 'cases:G', 'cases:P', 'cases:U', 'cases:V', 'cases:R', 'cases:D', 'variant:num-instances:reject',
              'variant:num-instances:accept'] +
             [f'clause:{t}:{c}:{d}' for t, c, d in R.required_pairs()] + _NODE_REQ)
 ASSUMPTIONS = ['the pinned tables were transcribed by hand from the repository at the time the check was written; the free-text '
@@ -223,6 +223,24 @@ def u_space():
                 ns = {'name': 'sw-svc', 'nstype': T, 'props': props, 'ports': [{'name': f'q{i}', 'itype': 'DedicatedPort'} for i in range(nports)]}
                 out.append({'space': 'U', 'flavour': 'substrate', 'services': [],
                             'nodes': [{'name': 'sw', 'ntype': 'Switch', 'via': 'add_node', 'site': SITES[0], 'node_services': [ns]}]})
+    return out
+
+
+def d_space():
+    """Several interfaces of ONE node that carry the same name (sub-interface names are only unique within their parent
+    port): the service-side ports then share a name too; every one of them still counts."""
+    out = []
+    for T in TYPES:
+        P = R.PIN_SERVICE[T]
+        for count in (2, 3):
+            ports = ['nic-p1', 'nic-p2', 'nic2-p1'][:count]
+            nd = {'name': 'nd', 'ntype': 'VM', 'via': 'add_node', 'site': SITES[0],
+                  'components': [{'name': 'nic', 'model_type': 'SmartNIC_ConnectX_6'}, {'name': 'nic2', 'model_type': 'SmartNIC_ConnectX_6'}],
+                  'subs': [{'port': p, 'name': 'child', 'vlan': str(100 + i)} for i, p in enumerate(ports)]}
+            ifaces = [{'ref': ['nd', p, 'child'], 'node': 'nd', 'itype': 'SubInterface', 'kind': 'SubInterface'} for p in ports]
+            props = {rp: PROP_VALUES[rp] for rp in P['required_properties'] if rp != 'site'}
+            sv = {'name': 'svc', 'nstype': T, 'via': 'ctor', 'declared': None, 'ifaces': ifaces, 'props': props}
+            out.append({'space': 'D', 'flavour': 'experiment', 'nodes': [nd], 'services': [sv]})
     return out
 
 
@@ -831,6 +849,9 @@ def run(ctx):
     for i, d in enumerate(u_space()):
         if i % nsh == sh:
             run_case(ctx, imp, d, f'U/{i}')
+    for i, d in enumerate(d_space()):
+        if i % nsh == sh:
+            run_case(ctx, imp, d, f'D/{i}')
     for i, d in enumerate(v_space()):
         if i % nsh == sh:
             run_case(ctx, imp, d, f'V/{i}')
